@@ -49,7 +49,7 @@ def demo(sid):
     return ok
 
 
-def trial(sid, checks, tier="quick", seed="1"):
+def trial(sid, checks, tier="quick", seed=os.environ.get("VERIF_SEED", "1")):
     base, repo = scratch(sid, True)
     res = {}
     try:
